@@ -283,6 +283,12 @@ def rec_plain_fn(x, tag=None):
     return x + 1
 
 
+def rec_declared_fn(x, tag=None):
+    """Only ever used with dtype= (and meta=) declared: every non-empty call before execution is unwarranted, whether or
+    not the keyword arguments survived a rewrite."""
+    return rec_plain_fn(x, tag="declared")
+
+
 class phase:
     def __init__(self, name):
         self.name = name
